@@ -331,6 +331,22 @@ class Body:
     def loop_heads(self):
         return {h for _, h in self.back_edges}
 
+    def control_deps(self, block):
+        """switch blocks on which the execution of `block` (transitively) depends: S such that `block` (or something it depends
+        on) post-dominates one successor of S but not S itself"""
+        deps = []
+        work = [block]
+        while work:
+            x0 = work.pop()
+            for sb in range(self.nblocks):
+                t = self.blocks[sb]["term"]
+                if t["k"] != "switch" or len(self.succ[sb]) < 2 or sb in deps:
+                    continue
+                if any(self.postdominates(x0, x) for x in self.succ[sb]) and not self.postdominates(x0, sb):
+                    deps.append(sb)
+                    work.append(sb)
+        return deps
+
     def natural_loop(self, head):
         body = {head}
         st = [t for t, h in self.back_edges if h == head]
